@@ -14,11 +14,12 @@ Definition sub (T1 T2 : list (N * N)) : Prop := forall h id, nm_find h T1 = Some
 Lemma sub_refl T : sub T T. Proof. intros h id H; exact H. Qed.
 Lemma sub_trans a b c : sub a b -> sub b c -> sub a c. Proof. intros H1 H2 h id H. auto. Qed.
 
-Definition ctx (s : cstate) : Prop := cs_locals s = [[]] /\ cs_upvalues s = [[]].
+Definition ctx (s : cstate) : Prop := cs_locals s = [[]] /\ cs_upvalues s = [[]] /\ cs_pc s = bytes (cs_code s).
 
 (* code, variable table, locals and upvalues are as before *)
 Definition keep4 (s s' : cstate) : Prop :=
-  cs_code s' = cs_code s /\ cs_ids s' = cs_ids s /\ cs_locals s' = cs_locals s /\ cs_upvalues s' = cs_upvalues s.
+  cs_code s' = cs_code s /\ cs_ids s' = cs_ids s /\ cs_locals s' = cs_locals s /\ cs_upvalues s' = cs_upvalues s /\
+  cs_pc s' = cs_pc s.
 
 Definition emits (m : M unit) (names : list str) (code : list (N * N) -> list instr) : Prop :=
   forall s s', ctx s -> m s = ROk tt s' ->
@@ -45,8 +46,8 @@ Qed.
 
 Lemma emits_nop m : (forall s s', m s = ROk tt s' -> keep4 s s') -> emits m [] (fun _ => []).
 Proof.
-  intros H s s' [Hl Hu] E. destruct (H _ _ E) as (a & b & c & d).
-  split; [split; congruence|]. split; [rewrite b; apply sub_refl|]. split; [intros n []|].
+  intros H s s' (Hl & Hu & Hp) E. destruct (H _ _ E) as (a & b & c & d & e).
+  split; [repeat split; congruence|]. split; [rewrite b; apply sub_refl|]. split; [intros n []|].
   intros T _. rewrite a. reflexivity.
 Qed.
 
@@ -60,8 +61,9 @@ Qed.
 
 Lemma emits_push i : emits (push_instr i) [] (fun _ => [i]).
 Proof.
-  intros s s' [Hl Hu] E. rewrite push_instr_eq in E. injection E as <-.
-  split; [split; exact Hl || exact Hu|]. split; [apply sub_refl|]. split; [intros n []|].
+  intros s s' (Hl & Hu & Hp) E. rewrite push_instr_eq in E. injection E as <-.
+  split; [repeat split; [exact Hl | exact Hu | cbn [pushed cs_pc cs_code set_code set_trace bytes]; unfold spanN; rewrite Hp; lia]|].
+  split; [apply sub_refl|]. split; [intros n []|].
   intros T _. reflexivity.
 Qed.
 
@@ -92,7 +94,7 @@ Qed.
 Lemma global_id_spec n s id s' :
   global_id n s = ROk id s' ->
   cs_code s' = cs_code s /\ cs_locals s' = cs_locals s /\ cs_upvalues s' = cs_upvalues s /\
-  nm_find (handle_of_bytes n) (cs_ids s') = Some id /\ sub (cs_ids s) (cs_ids s').
+  nm_find (handle_of_bytes n) (cs_ids s') = Some id /\ sub (cs_ids s) (cs_ids s') /\ cs_pc s' = cs_pc s.
 Proof.
   unfold global_id, bind, handle_from_bytes_m.
   destruct (nm_find (handle_of_bytes n) (cs_ids s)) as [id0|] eqn:Ef.
@@ -108,10 +110,12 @@ Qed.
 Lemma emits_global n (k : N -> instr) :
   emits (do id <- global_id n ;; push_instr (k id)) [n] (fun T => [k (idT T n)]).
 Proof.
-  intros s s' [Hl Hu] E. apply bind_ok in E. destruct E as (id & s1 & E1 & E2).
-  destruct (global_id_spec _ _ _ _ E1) as (A & B & C & D & S1).
+  intros s s' (Hl & Hu & Hp) E. apply bind_ok in E. destruct E as (id & s1 & E1 & E2).
+  destruct (global_id_spec _ _ _ _ E1) as (A & B & C & D & S1 & Pc1).
   rewrite push_instr_eq in E2. injection E2 as <-.
-  split; [split; cbn; congruence|]. split; [exact S1|]. split.
+  split; [split; [cbn; congruence | split; [cbn; congruence|]]|].
+  { cbn [pushed cs_pc cs_code set_code set_trace bytes]. unfold spanN. rewrite Pc1, Hp, A. lia. }
+  split; [exact S1|]. split.
   - intros x [<-|[]]. cbn. rewrite D. discriminate.
   - intros T HT. cbn. unfold idT. rewrite (HT _ _ D), A. reflexivity.
 Qed.
@@ -120,7 +124,7 @@ Lemma resolve_var_global n s :
   ctx s -> is_empty n = false ->
   resolve_var n s = ROk VGlobal (set_scopes (cs_locals s) (cs_upvalues s) (cs_depth s) s).
 Proof.
-  intros [Hl Hu] Hn. unfold resolve_var, bind, validate_var_name. rewrite Hn. cbn [ret].
+  intros (Hl & Hu & _) Hn. unfold resolve_var, bind, validate_var_name. rewrite Hn. cbn [ret].
   rewrite Hl, Hu. reflexivity.
 Qed.
 
@@ -227,14 +231,14 @@ Definition main_ir (name : str) (f : function) : function_ir :=
 
 Lemma keep4_scope_end s s' : ctx s -> scope_end s = ROk tt s' -> keep4 s s'.
 Proof.
-  intros [Hl Hu]. unfold scope_end. rewrite Hl. cbn [hd rev pop_locals snd fst push_raws ret map_hd].
+  intros (Hl & Hu & _). unfold scope_end. rewrite Hl. cbn [hd rev pop_locals snd fst push_raws ret map_hd].
   intros E. injection E as <-. repeat split; cbn; auto.
 Qed.
 
 Lemma emits_scope_end : emits scope_end [] (fun _ => []).
 Proof.
-  intros s s' Hcx E. destruct (keep4_scope_end _ _ Hcx E) as (a & b & c & d). destruct Hcx as [Hl Hu].
-  split; [split; congruence|]. split; [rewrite b; apply sub_refl|]. split; [intros n []|].
+  intros s s' Hcx E. destruct (keep4_scope_end _ _ Hcx E) as (a & b & c & d & e). destruct Hcx as (Hl & Hu & Hp).
+  split; [repeat split; congruence|]. split; [rewrite b; apply sub_refl|]. split; [intros n []|].
   intros T _. rewrite a. reflexivity.
 Qed.
 
@@ -333,7 +337,8 @@ Proof.
   pose proof (frame3_stage_1 (fm :: std) s0) as F1. rewrite E1 in F1.
   destruct F1 as (c1 & p1 & i1 & n1).
   assert (Hctx1 : ctx s1).
-  { destruct (stage_1_ctx _ _ _ E1) as [A B]. split; [rewrite A | rewrite B]; reflexivity. }
+  { destruct (stage_1_ctx _ _ _ E1) as [A B]. split; [rewrite A; reflexivity|]. split; [rewrite B; reflexivity|].
+    rewrite p1, c1. reflexivity. }
   (* main *)
   destruct (emits_main s_main f Ha Hcards _ _ Hctx1 E2) as (Hctx2 & Hsub12 & Hnames2 & Hcode2).
   (* the invariants of C01SimKeep from the start to the end of main *)
